@@ -33,6 +33,15 @@ package pub
 //@ specfun stripped(x) = props[x]["ActivityStreamsBto"] == nil && props[x]["ActivityStreamsBcc"] == nil && (props[x]["ActivityStreamsObject"] != nil ==> (forall j Int :: {props[x]["ActivityStreamsObject"].At(j)} 0 <= j && j < props[x]["ActivityStreamsObject"].Len() ==> strippedVal(props[x]["ActivityStreamsObject"].At(j).GetType())))
 //@ specfun plen(p) = p == nil ? 0 : p.Len()
 
+// C20: the id string by which dedupeOrderedItems identifies an element
+//@ specfun ekey(e) = str(elemId(e))
+
+// C06: f is a Follow, 'me' is among its actors (witness gMe), and every actor of the accepting activity is among its objects (witnesses gObjWit)
+//@ specfun followVerified(f, me, acc) = streams.IsOrExtendsActivityStreamsFollow(f) && props[f]["ActivityStreamsActor"] != nil && 0 <= gMe && gMe < props[f]["ActivityStreamsActor"].Len() && ekey(props[f]["ActivityStreamsActor"].At(gMe)) == str(me) && props[f]["ActivityStreamsObject"] != nil && (forall j Int :: {acc.At(j)} 0 <= j && j < acc.Len() ==> 0 <= gObjWit[ekey(acc.At(j))] && gObjWit[ekey(acc.At(j))] < props[f]["ActivityStreamsObject"].Len() && ekey(props[f]["ActivityStreamsObject"].At(gObjWit[ekey(acc.At(j))])) == ekey(acc.At(j)))
+
+// C06: every actor of document d is, by id string, one of the actors in container acts (witnesses gActWit)
+//@ specfun actorsCovered(d, acts) = implements(d, "pub.actorer") && props[d]["ActivityStreamsActor"] != nil && (forall j Int :: {props[d]["ActivityStreamsActor"].At(j)} 0 <= j && j < props[d]["ActivityStreamsActor"].Len() ==> 0 <= gActWit[ekey(props[d]["ActivityStreamsActor"].At(j))] && gActWit[ekey(props[d]["ActivityStreamsActor"].At(j))] < acts.Len() && ekey(acts.At(gActWit[ekey(props[d]["ActivityStreamsActor"].At(j))])) == ekey(props[d]["ActivityStreamsActor"].At(j)))
+
 // The DelegateActor that baseActor talks to is taken to be the library's sideEffectActor;
 // a custom delegate (NewCustomActor) is assumed to meet the same contracts.
 //@ iface pub.DelegateActor.PostInboxRequestBodyHook satisfies (*pub.sideEffectActor).PostInboxRequestBodyHook
@@ -83,7 +92,7 @@ package pub
 //@ [C10] ensures error_unwritten: result0 && result1 != nil ==> libWrote == 0
 //@ [C10] ensures one_status: result0 && result1 == nil ==> wrote == 1
 //@ [C10] ensures disabled_405: r.Method == "POST" && isASMedia(old(hdr)[r.Header]["Content-Type"]) && !b.enableFederatedProtocol ==> result0 && result1 == nil && status == 405
-//@ modifies $db, authed, cleared, typeUnknown, lacksId, lastBlocked, reqMissing, wrote, libWrote, status, sentHdr, bodyWrites, hdr, bufstr, H:net/url.URL.Host, H:net/url.URL.Scheme, A:Int, A:Iface, nDeliver, nNewID, actIdTick, leak
+//@ modifies $db, authed, cleared, typeUnknown, lacksId, lastBlocked, reqMissing, wrote, libWrote, status, sentHdr, bodyWrites, hdr, bufstr, H:net/url.URL.Host, H:net/url.URL.Scheme, A:Int, A:Iface, nDeliver, nNewID, actIdTick, leak, storedFollow, gMe, gObjWit, gDoc, gActWit
 //@ [C10] at call streams.ToType#1: ghost typeUnknown = isUnmatched($res1)
 //@ [C10] at call pub.Activity.GetJSONLDId#1: ghost lacksId = $res0 == nil || $res0.Get() == nil
 //@ [C10] at call pub.DelegateActor.PostInbox#1: ghost reqMissing = $res0 == pub.ErrObjectRequired || $res0 == pub.ErrTargetRequired
@@ -108,7 +117,7 @@ package pub
 //@ [C10] ensures not_handled: !result0 ==> wrote == 0 && result1 == nil
 //@ [C10] ensures error_unwritten: result0 && result1 != nil ==> libWrote == 0
 //@ [C10] ensures one_status: result0 && result1 == nil ==> wrote == 1
-//@ modifies $db, authed, cleared, typeUnknown, lacksId, lastBlocked, reqMissing, wrote, libWrote, status, sentHdr, bodyWrites, hdr, bufstr, H:net/url.URL.Host, H:net/url.URL.Scheme, A:Int, A:Iface, nDeliver, nNewID, actIdTick, leak
+//@ modifies $db, authed, cleared, typeUnknown, lacksId, lastBlocked, reqMissing, wrote, libWrote, status, sentHdr, bodyWrites, hdr, bufstr, H:net/url.URL.Host, H:net/url.URL.Scheme, A:Int, A:Iface, nDeliver, nNewID, actIdTick, leak, storedFollow, gMe, gObjWit, gDoc, gActWit
 
 //@ func (*pub.baseActor).PostOutboxScheme
 //@ params b, c, w, r, scheme
@@ -126,7 +135,7 @@ package pub
 //@ [C10] ensures error_unwritten: result0 && result1 != nil ==> libWrote == 0
 //@ [C10] ensures one_status: result0 && result1 == nil ==> wrote == 1
 //@ [C10] ensures disabled_405: r.Method == "POST" && isASMedia(old(hdr)[r.Header]["Content-Type"]) && !b.enableSocialProtocol ==> result0 && result1 == nil && status == 405
-//@ modifies $db, authed, cleared, typeUnknown, lacksId, lastBlocked, reqMissing, newId, wrote, libWrote, status, sentHdr, bodyWrites, hdr, bufstr, H:net/url.URL.Host, H:net/url.URL.Scheme, A:Int, A:Iface, nSetOutbox, nDeliver, nNewID, actIdTick, snapV, snapP, snapIRI, leak
+//@ modifies $db, authed, cleared, typeUnknown, lacksId, lastBlocked, reqMissing, newId, wrote, libWrote, status, sentHdr, bodyWrites, hdr, bufstr, H:net/url.URL.Host, H:net/url.URL.Scheme, A:Int, A:Iface, nSetOutbox, nDeliver, nNewID, actIdTick, snapV, snapP, snapIRI, leak, gDoc, gActWit
 //@ [C10] at call streams.ToType#1: ghost typeUnknown = isUnmatched($res1)
 //@ [C10] at call (*pub.baseActor).deliver#1: ghost reqMissing = $res1 == pub.ErrObjectRequired || $res1 == pub.ErrTargetRequired
 //@ [C10] at call (*pub.baseActor).deliver#1: ghost newId = $res0.GetJSONLDId().Get()
@@ -149,7 +158,7 @@ package pub
 //@ [C10] ensures not_handled: !result0 ==> wrote == 0 && result1 == nil
 //@ [C10] ensures error_unwritten: result0 && result1 != nil ==> libWrote == 0
 //@ [C10] ensures one_status: result0 && result1 == nil ==> wrote == 1
-//@ modifies $db, authed, cleared, typeUnknown, lacksId, lastBlocked, reqMissing, newId, wrote, libWrote, status, sentHdr, bodyWrites, hdr, bufstr, H:net/url.URL.Host, H:net/url.URL.Scheme, A:Int, A:Iface, nSetOutbox, nDeliver, nNewID, actIdTick, snapV, snapP, snapIRI, leak
+//@ modifies $db, authed, cleared, typeUnknown, lacksId, lastBlocked, reqMissing, newId, wrote, libWrote, status, sentHdr, bodyWrites, hdr, bufstr, H:net/url.URL.Host, H:net/url.URL.Scheme, A:Int, A:Iface, nSetOutbox, nDeliver, nNewID, actIdTick, snapV, snapP, snapIRI, leak, gDoc, gActWit
 //@ [C03] ensures no_hidden_payload: leak == old(leak)
 
 //@ func (*pub.baseActor).GetInbox
@@ -167,7 +176,7 @@ package pub
 //@ [C10] ensures error_unwritten: result0 && result1 != nil ==> libWrote == 0
 //@ [C10] ensures one_status: result0 && result1 == nil ==> wrote == 1
 //@ [C10] ensures status_200: result0 && result1 == nil && authed ==> status == 200
-//@ modifies $db, authed, wrote, libWrote, status, sentHdr, bodyWrites, hdr, bufstr, nowTick, lastBody, servedValue, delegateValue, servedJSON
+//@ modifies $db, authed, wrote, libWrote, status, sentHdr, bodyWrites, hdr, bufstr, nowTick, lastBody, servedValue, delegateValue, servedJSON, gR, gSrc, gWit, gKept, gDup, dedupedValue
 //@ [C20] at call pub.DelegateActor.GetInbox#1: ghost delegateValue = $res0
 //@ [C20] at call streams.Serialize#1: ghost servedValue = $arg0
 //@ [C20] at call encoding/json.Marshal#1: assert marshals_the_serialisation: $arg0.pl == m
@@ -175,6 +184,8 @@ package pub
 //@ [C20] at call net/http.ResponseWriter.Write#1: assert writes_the_hashed_bytes: bytesof($arg1) == servedJSON
 //@ [C20] ensures serves_delegate_value: result0 && result1 == nil && authed ==> servedValue == delegateValue && lastBody == servedJSON && status == 200
 //@ [C20] ensures headers: result0 && result1 == nil && authed ==> sentHdr["Content-Type"] == "application/ld+json; profile=\"https://www.w3.org/ns/activitystreams\"" && sentHdr["Digest"] == "SHA-256=" + b64(arrbytes(sha256arr(lastBody), 32)) && sentHdr["Date"] == timeFormat(utcOf(clockAt(nowTick)), "Mon, 02 Jan 2006 15:04:05") + " GMT"
+//@ [C20] at call pub.dedupeOrderedItems#1: ghost dedupedValue = $arg0
+//@ [C20] ensures deduplicated_before_serving: result0 && result1 == nil && authed ==> servedValue == dedupedValue && dedupedValue == delegateValue
 
 //@ func (*pub.baseActor).GetOutbox
 //@ params b, c, w, r
@@ -208,7 +219,7 @@ package pub
 //@ [C08] requires unlocked: held == emp
 //@ [C08] ensures unlocked: held == emp
 //@ [C07] requires authed: authed
-//@ modifies $db, A:Int, A:Iface, nSetOutbox, nDeliver, nNewID, actIdTick, snapV, snapP, snapIRI, leak
+//@ modifies $db, A:Int, A:Iface, nSetOutbox, nDeliver, nNewID, actIdTick, snapV, snapP, snapIRI, leak, gDoc, gActWit
 //@ [C11] ensures id_set: err == nil ==> activity != nil && activity.GetJSONLDId() != nil && activity.GetJSONLDId().Get() != nil
 //@ [C11] at call pub.DelegateActor.PostOutbox#1: assume!post id_stable: activity.GetJSONLDId() == old(activity.GetJSONLDId()) && activity.GetJSONLDId().Get() == old(activity.GetJSONLDId().Get())
 //@ [C11] at call pub.DelegateActor.Deliver#1: assume!post id_stable: activity.GetJSONLDId() == old(activity.GetJSONLDId()) && activity.GetJSONLDId().Get() == old(activity.GetJSONLDId().Get())
@@ -229,7 +240,7 @@ package pub
 //@ [C08] requires unlocked: held == emp
 //@ [C08] ensures unlocked: held == emp
 //@ [C07] requires authed: authed
-//@ modifies $db, A:Int, A:Iface, nSetOutbox, nDeliver, nNewID, actIdTick, snapV, snapP, snapIRI, leak
+//@ modifies $db, A:Int, A:Iface, nSetOutbox, nDeliver, nNewID, actIdTick, snapV, snapP, snapIRI, leak, gDoc, gActWit
 //@ [C05] ensures accepted_is_listed_once: result1 == nil ==> nSetOutbox == old(nSetOutbox) + 1
 //@ [C05] ensures delivery_implies_listed_once: nDeliver != old(nDeliver) ==> nSetOutbox == old(nSetOutbox) + 1
 //@ [C03] ensures no_hidden_payload: leak == old(leak)
@@ -332,7 +343,7 @@ package pub
 //@ [C08] requires unlocked: held == emp
 //@ [C08] ensures unlocked: held == emp
 //@ [C07] requires authed: authed && cleared
-//@ modifies $db, A:Int, A:Iface, nDeliver, nNewID, actIdTick, leak
+//@ modifies $db, A:Int, A:Iface, nDeliver, nNewID, actIdTick, leak, storedFollow, gMe, gObjWit, gDoc, gActWit
 //@ [C11] requires has_id: activity.GetJSONLDId() != nil
 //@ [C11] requires has_actor: activity.GetActivityStreamsActor() != nil
 //@ [C11] ensures id_kept: activity.GetJSONLDId() == old(activity.GetJSONLDId())
@@ -363,7 +374,7 @@ package pub
 //@ [C08] requires unlocked: held == emp
 //@ [C08] ensures unlocked: held == emp
 //@ [C07] requires authed: authed
-//@ modifies $db, A:Int, A:Iface, nSetOutbox, nDeliver, snapV, snapP, snapIRI
+//@ modifies $db, A:Int, A:Iface, nSetOutbox, nDeliver, snapV, snapP, snapIRI, gDoc, gActWit
 //@ [C11] requires has_id: activity.GetJSONLDId() != nil
 //@ [C11] requires a.clock != nil
 //@ [C11] at call (streams.TypeResolver).Resolve#1: assume!post id_stable: activity.GetJSONLDId() == old(activity.GetJSONLDId())
@@ -613,7 +624,7 @@ package pub
 //@ [C08] requires unlocked: held == emp
 //@ [C08] ensures unlocked: held == emp
 //@ [C07] requires authed: authed && cleared
-//@ modifies $db, A:Int, A:Iface
+//@ modifies $db, A:Int, A:Iface, storedFollow, gMe, gObjWit
 //@ [C08] at call Database.Update#1: assert same_hold: held[srcKey[following]] && srcEpoch[following] == epoch[srcKey[following]]
 //@ loop 1 [C09] invariant unlocked: held == emp
 //@ loop 1 [C08] invariant unlocked: held == emp
@@ -621,6 +632,8 @@ package pub
 //@ loop 3 [C08] invariant holds_actor: held == emp[str(actorIRI) := true] && srcKey[following] == str(actorIRI) && srcEpoch[following] == epoch[str(actorIRI)]
 //@ [C11] requires has_actor: a.GetActivityStreamsActor() != nil
 //@ loop 1 [C11] invariant actor_known: actorIRI != nil
+//@ [C06] at call pub.Database.Following#1: assert follow_verified_before_following: followVerified(storedFollow, actorIRI, activityActors)
+//@ [C06] ensures following_changes_only_if_verified: nUpdate != old(nUpdate) ==> streams.IsOrExtendsActivityStreamsFollow(storedFollow)
 
 //@ func (pub.FederatingWrappedCallbacks).accept$1
 //@ [C11] requires w.db != nil && maybeMyFollowIRI != nil && actorIRI != nil && activityActors != nil
@@ -629,7 +642,25 @@ package pub
 //@ [C08] requires unlocked: held == emp
 //@ [C08] ensures unlocked: held == emp
 //@ [C07] requires authed: authed && cleared
-//@ modifies $db
+//@ modifies $db, storedFollow, gMe, gObjWit
+//@ [C06] at call pub.Database.Get#1: ghost storedFollow = $res0
+//@ [C06] at call (*net/url.URL).String#2: ghost gMe = (str(id) == $res0 ? ipos(iter) : gMe)
+//@ [C06] at call (*net/url.URL).String#5: ghost gObjWit = gObjWit[$res0 := ipos(iter)]
+//@ [C06] ensures verified: result == nil ==> followVerified(storedFollow, actorIRI, activityActors)
+//@ [C06] ensures values_untouched: ASH == old(ASH) && ASHP == old(ASHP) && props == old(props) && idval == old(idval) && hrefval == old(hrefval)
+//@ loop 1 [C06] invariant stored: follow == storedFollow && t == storedFollow && streams.IsOrExtendsActivityStreamsFollow(storedFollow) && actors == props[storedFollow]["ActivityStreamsActor"] && actors != nil
+//@ loop 1 [C06] invariant position: iter != nil ==> iter == actors.At(ipos(iter)) && iparent(iter) == actors && ilen(iter) == actors.Len()
+//@ loop 1 [C06] invariant me_found: ok ==> 0 <= gMe && gMe < actors.Len() && ekey(actors.At(gMe)) == str(actorIRI)
+//@ loop 2 [C06] invariant stored: follow == storedFollow && t == storedFollow && streams.IsOrExtendsActivityStreamsFollow(storedFollow) && actors == props[storedFollow]["ActivityStreamsActor"] && actors != nil && 0 <= gMe && gMe < actors.Len() && ekey(actors.At(gMe)) == str(actorIRI)
+//@ loop 2 [C06] invariant position: iter != nil ==> iter == activityActors.At(ipos(iter)) && iparent(iter) == activityActors && ilen(iter) == activityActors.Len()
+//@ loop 2 [C06] invariant keys_added: forall j Int :: {activityActors.At(j)} 0 <= j && j < (iter == nil ? activityActors.Len() : ipos(iter)) ==> has(acceptActors, ekey(activityActors.At(j)))
+//@ loop 2 [C06] invariant none_marked: forall s String :: {acceptActors[s]} has(acceptActors, s) ==> !acceptActors[s]
+//@ loop 3 [C06] invariant stored: follow == storedFollow && t == storedFollow && streams.IsOrExtendsActivityStreamsFollow(storedFollow) && actors == props[storedFollow]["ActivityStreamsActor"] && actors != nil && 0 <= gMe && gMe < actors.Len() && ekey(actors.At(gMe)) == str(actorIRI) && followObj == props[storedFollow]["ActivityStreamsObject"] && followObj != nil
+//@ loop 3 [C06] invariant position: iter != nil ==> iter == followObj.At(ipos(iter)) && iparent(iter) == followObj && ilen(iter) == followObj.Len()
+//@ loop 3 [C06] invariant keys_kept: forall j Int :: {activityActors.At(j)} 0 <= j && j < activityActors.Len() ==> has(acceptActors, ekey(activityActors.At(j)))
+//@ loop 3 [C06] invariant marked_have_witness: forall s String :: {acceptActors[s]} has(acceptActors, s) && acceptActors[s] ==> 0 <= gObjWit[s] && gObjWit[s] < (iter == nil ? followObj.Len() : ipos(iter)) && ekey(followObj.At(gObjWit[s])) == s
+//@ loop 4 [C06] invariant all_visited_marked: forall s String :: {visited(1)[s]} visited(1)[s] ==> has(acceptActors, s) && acceptActors[s]
+//@ [C06] ensures reads_only: nUpdate == old(nUpdate) && nDelete == old(nDelete) && nCreate == old(nCreate)
 
 //@ func (pub.FederatingWrappedCallbacks).reject
 //@ params w, c, a
@@ -725,9 +756,10 @@ package pub
 //@ [C08] requires unlocked: held == emp
 //@ [C08] ensures unlocked: held == emp
 //@ [C07] requires authed: authed && cleared
-//@ modifies $db
+//@ modifies $db, gDoc, gActWit
 //@ [C10] ensures object_required: old(a.GetActivityStreamsObject() == nil || a.GetActivityStreamsObject().Len() == 0) ==> result == pub.ErrObjectRequired && eff == old(eff)
 //@ [C11] requires has_actor: a.GetActivityStreamsActor() != nil
+//@ [C06] ensures accepted_only_if_actors_covered: result == nil && w.Undo == nil ==> (forall i Int :: {gDoc[i]} 0 <= i && i < a.GetActivityStreamsObject().Len() ==> actorsCovered(gDoc[i], a.GetActivityStreamsActor()))
 
 //@ func (pub.FederatingWrappedCallbacks).block
 //@ params w, c, a
@@ -876,7 +908,7 @@ package pub
 //@ [C08] requires unlocked: held == emp
 //@ [C08] ensures unlocked: held == emp
 //@ [C07] requires authed: authed
-//@ modifies $db, C:Bool[w.undeliverable]
+//@ modifies $db, C:Bool[w.undeliverable], gDoc, gActWit
 //@ [C10] ensures object_required: old(a.GetActivityStreamsObject() == nil || a.GetActivityStreamsObject().Len() == 0) ==> result == pub.ErrObjectRequired && eff == old(eff)
 
 //@ func (pub.SocialWrappedCallbacks).block
@@ -957,8 +989,19 @@ package pub
 //@ params c, actors, op, newTransport, boxIRI
 //@ [C11] requires newTransport != nil
 //@ [C07] requires authed: authed
-//@ modifies eff, appCalls
+//@ modifies eff, appCalls, gDoc, gActWit
 //@ [C11] requires op != nil
+//@ [C06] at call (*net/url.URL).String#1: ghost gActWit = gActWit[$res0 := ipos(iter)]
+//@ [C06] at call streams.ToType#1: ghost gDoc = gDoc[ipos(iter) := $res0]
+//@ [C06] ensures every_undone_actor_is_an_undo_actor: result == nil ==> (forall i Int :: {gDoc[i]} 0 <= i && i < op.Len() ==> actorsCovered(gDoc[i], actors))
+//@ [C06] ensures values_untouched: ASH == old(ASH) && ASHP == old(ASHP) && props == old(props) && idval == old(idval) && hrefval == old(hrefval)
+//@ loop 1 [C06] invariant position: iter != nil ==> iter == actors.At(ipos(iter)) && iparent(iter) == actors && ilen(iter) == actors.Len()
+//@ loop 1 [C06] invariant map_has_witness: forall s String :: {activityActorMap[s]} has(activityActorMap, s) ==> 0 <= gActWit[s] && gActWit[s] < (iter == nil ? actors.Len() : ipos(iter)) && ekey(actors.At(gActWit[s])) == s
+//@ loop 2 [C06] invariant position: iter != nil ==> iter == op.At(ipos(iter)) && iparent(iter) == op && ilen(iter) == op.Len()
+//@ loop 2 [C06] invariant map_has_witness: forall s String :: {activityActorMap[s]} has(activityActorMap, s) ==> 0 <= gActWit[s] && gActWit[s] < actors.Len() && ekey(actors.At(gActWit[s])) == s
+//@ loop 2 [C06] invariant docs_verified: forall i Int :: {gDoc[i]} 0 <= i && i < (iter == nil ? op.Len() : ipos(iter)) ==> actorsCovered(gDoc[i], actors)
+//@ loop 3 [C06] invariant position: iter != nil ==> iter == objActors.At(ipos(iter)) && iparent(iter) == objActors && ilen(iter) == objActors.Len()
+//@ loop 3 [C06] invariant checked_so_far: forall j Int :: {objActors.At(j)} 0 <= j && j < (iter == nil ? objActors.Len() : ipos(iter)) ==> has(activityActorMap, ekey(objActors.At(j)))
 
 //@ func pub.ToId
 //@ params i
@@ -1091,9 +1134,29 @@ package pub
 //@ func pub.dedupeOrderedItems
 //@ params oc
 //@ [C11] requires oc != nil
-//@ modifies ASH, ASHP, props
+//@ modifies ASHP, gR, gSrc, gWit, gKept, gDup
 //@ loop 1 [C11] invariant idx: 0 <= i
 //@ loop 1 [C11] decreases oi.Len() - i
+//@ [C20] at call streams/vocab.ActivityStreamsOrderedItemsProperty.Len#1: ghost gR = 0
+//@ [C20] at call (*net/url.URL).String#2: ghost gSrc = gSrc[i := i + gR]
+//@ [C20] at call (*net/url.URL).String#2: ghost gKept = gKept[i + gR := i]
+//@ [C20] at call (*net/url.URL).String#2: ghost gWit = gWit[$res0 := i]
+//@ [C20] at call streams/vocab.ActivityStreamsOrderedItemsProperty.Remove#1: ghost gKept = gKept[i + gR := 0 - 1]
+//@ [C20] at call streams/vocab.ActivityStreamsOrderedItemsProperty.Remove#1: ghost gDup = gDup[i + gR := gWit[str(id)]]
+//@ [C20] at call streams/vocab.ActivityStreamsOrderedItemsProperty.Remove#1: ghost gR = gR + 1
+//@ loop 1 [C20] invariant counts: 0 <= i && i <= oi.Len() && gR >= 0 && oi.Len() + gR == lenv(old(ASHP), oi) && oi == old(props[oc]["ActivityStreamsOrderedItems"]) && ASH == old(ASH) && props == old(props) && idval == old(idval) && hrefval == old(hrefval)
+//@ loop 1 [C20] invariant kept_prefix: forall j Int :: {oi.At(j)} 0 <= j && j < i ==> 0 <= gSrc[j] && gSrc[j] < i + gR && oi.At(j) == atv(old(ASHP), oi, gSrc[j])
+//@ loop 1 [C20] invariant increasing: forall j Int, k Int :: {gSrc[j], gSrc[k]} 0 <= j && j < k && k < i ==> gSrc[j] < gSrc[k]
+//@ loop 1 [C20] invariant suffix_shifted: forall j Int :: {oi.At(j)} i <= j && j < oi.Len() ==> oi.At(j) == atv(old(ASHP), oi, j + gR)
+//@ loop 1 [C20] invariant seen_has_witness: forall s String :: {seen[s]} has(seen, s) && seen[s] ==> 0 <= gWit[s] && gWit[s] < i && ekey(oi.At(gWit[s])) == s
+//@ loop 1 [C20] invariant kept_are_seen: forall j Int :: {oi.At(j)} 0 <= j && j < i ==> has(seen, ekey(oi.At(j))) && seen[ekey(oi.At(j))]
+//@ loop 1 [C20] invariant kept_distinct: forall j Int, k Int :: {oi.At(j), oi.At(k)} 0 <= j && j < k && k < i ==> ekey(oi.At(j)) != ekey(oi.At(k))
+//@ loop 1 [C20] invariant every_old_accounted: forall k Int :: {gKept[k]} 0 <= k && k < i + gR ==> (gKept[k] >= 0 ==> gKept[k] < i && gSrc[gKept[k]] == k) && (gKept[k] < 0 ==> 0 <= gDup[k] && gDup[k] < i && gSrc[gDup[k]] < k && ekey(oi.At(gDup[k])) == ekey(atv(old(ASHP), oi, k)))
+//@ loop 1 [C20] decreases oi.Len() - i
+//@ [C20] ensures subsequence: result == nil && old(props[oc]["ActivityStreamsOrderedItems"]) != nil ==> props[oc]["ActivityStreamsOrderedItems"] == old(props[oc]["ActivityStreamsOrderedItems"]) && props[oc]["ActivityStreamsOrderedItems"].Len() + gR == lenv(old(ASHP), props[oc]["ActivityStreamsOrderedItems"]) && (forall j Int :: {props[oc]["ActivityStreamsOrderedItems"].At(j)} 0 <= j && j < props[oc]["ActivityStreamsOrderedItems"].Len() ==> 0 <= gSrc[j] && gSrc[j] < lenv(old(ASHP), props[oc]["ActivityStreamsOrderedItems"]) && props[oc]["ActivityStreamsOrderedItems"].At(j) == atv(old(ASHP), props[oc]["ActivityStreamsOrderedItems"], gSrc[j])) && (forall j Int, k Int :: {gSrc[j], gSrc[k]} 0 <= j && j < k && k < props[oc]["ActivityStreamsOrderedItems"].Len() ==> gSrc[j] < gSrc[k])
+//@ [C20] ensures no_duplicates_left: result == nil && old(props[oc]["ActivityStreamsOrderedItems"]) != nil ==> (forall j Int, k Int :: {props[oc]["ActivityStreamsOrderedItems"].At(j), props[oc]["ActivityStreamsOrderedItems"].At(k)} 0 <= j && j < k && k < props[oc]["ActivityStreamsOrderedItems"].Len() ==> ekey(props[oc]["ActivityStreamsOrderedItems"].At(j)) != ekey(props[oc]["ActivityStreamsOrderedItems"].At(k)))
+//@ [C20] ensures dropped_are_later_duplicates: result == nil && old(props[oc]["ActivityStreamsOrderedItems"]) != nil ==> (forall k Int :: {gKept[k]} 0 <= k && k < lenv(old(ASHP), props[oc]["ActivityStreamsOrderedItems"]) ==> (gKept[k] >= 0 ==> gKept[k] < props[oc]["ActivityStreamsOrderedItems"].Len() && gSrc[gKept[k]] == k) && (gKept[k] < 0 ==> 0 <= gDup[k] && gDup[k] < props[oc]["ActivityStreamsOrderedItems"].Len() && gSrc[gDup[k]] < k && ekey(props[oc]["ActivityStreamsOrderedItems"].At(gDup[k])) == ekey(atv(old(ASHP), props[oc]["ActivityStreamsOrderedItems"], k))))
+//@ [C20] ensures values_untouched: ASH == old(ASH) && props == old(props) && idval == old(idval)
 
 //@ func pub.requestId
 //@ params r, scheme
